@@ -43,11 +43,16 @@ def gen_history(rnd):
         decl[out] = list(ranks)
         exprs.append(Einsum(Acc(out, [[(1, r.lower())] for r in ranks]), [Term("times", fs)]))
         prev = out
-    # few distinct space/time splits so that prefixes often coincide
+    # few distinct loop orders and space/time splits so that prefixes often coincide
+    orders = [list(ranks)]
+    if len(ranks) > 1 and rnd.random() < 0.5:
+        o2 = list(ranks)
+        rnd.shuffle(o2)
+        orders.append(o2)
     splits = []
     for _ in range(rnd.choice([1, 1, 2, 3])):
         k = rnd.randint(0, len(ranks))
-        splits.append((ranks[:k], ranks[k:]) if rnd.random() < 0.7 else (list(ranks), []))
+        splits.append(k if rnd.random() < 0.7 else len(ranks))
     arch = ["architecture:"]
     comp_names = {}
     for c in range(nconf):
@@ -67,13 +72,20 @@ def gen_history(rnd):
         comp_names[c] = names
     b = ["bindings:"]
     st = {}
+    lo = {}
     cur = rnd.randrange(nconf)
     for i in range(n):
         out = "T%d" % i
         if rnd.random() < 0.25:
             cur = rnd.randrange(nconf)
-        time, space = rnd.choice(splits)
-        st[out] = {"space": list(space), "time": list(time)}
+        lo_i = rnd.choice(orders)
+        k = rnd.choice(splits)
+        time, space = list(lo_i[:k]), list(lo_i[k:])
+        if lo_i != list(ranks) or rnd.random() < 0.3:
+            lo[out] = list(lo_i)
+        if len(time) > 1 and rnd.random() < 0.4:
+            rnd.shuffle(time)         # the time LIST may be in any order; the loop order rules
+        st[out] = {"space": list(space), "time": time}
         b += ["  %s:" % out, "  - config: cfg%d" % cur, "    prefix: tmp/%s" % out]
         names = comp_names[cur]
         k = rnd.randint(0, min(2, len(names)))
@@ -87,7 +99,8 @@ def gen_history(rnd):
         fmt += ["  %s:" % t, "    default:", "      rank-order: [%s]" % ", ".join(rs)]
         for r in rs:
             fmt += ["      %s:" % r, "        format: C", "        pbits: 32"]
-    spec = Spec(decl, exprs, spacetime=st, extra="\n".join(arch + b + fmt) + "\n",
+    spec = Spec(decl, exprs, loop_order=(lo or None), spacetime=st,
+                extra="\n".join(arch + b + fmt) + "\n",
                 tags=["history%d" % n, "configs%d" % nconf])
     return spec
 
